@@ -228,8 +228,9 @@ class Check:
         os.makedirs(CASEDIR, exist_ok=True)
         self.known_findings = [k for k in load_known() if k.get('property') == prop]
         import glob
-        for old in glob.glob(os.path.join(REPLAY_DIR, prop + '-*.json')):
-            os.unlink(old)
+        if os.environ.get('VERIF_REPLAY') != '1':
+            for old in glob.glob(os.path.join(REPLAY_DIR, prop + '-*.json')):
+                os.unlink(old)
 
     # ------------------------------------------------------------------ budget
     def n(self, quick, thorough):
@@ -422,8 +423,9 @@ class Check:
             'wall_s': round(wall, 2),
             'violations': len(self.violations) + self.suppressed,
         }
-        with open(os.path.join(EVIDENCE_DIR, self.prop + '.json'), 'w') as f:
-            json.dump(ev, f, indent=1, default=repr)
+        if os.environ.get('VERIF_REPLAY') != '1':
+            with open(os.path.join(EVIDENCE_DIR, self.prop + '.json'), 'w') as f:
+                json.dump(ev, f, indent=1, default=repr)
         for line in self.known_lines:
             print(line)
         for path, suffix in self.violations:
